@@ -587,7 +587,7 @@ def validate_traces_generic(specdir, module, cfg, traces, stats, verdict, subjec
             p = rej.get(j)
             if p is None:
                 raise MachineryError("trace %d of shard %d has neither ACCEPT nor REJECT" % (j, i))
-            ev = tr["ev"][p["l"] - 1]
+            ev = tr["ev"][p["l"] - 1] if tr["ev"] else {}
             exp = p.get("exp")
             what = "trace-rejected"
             if isinstance(exp, list) and exp and isinstance(exp[0], dict) and "r" in exp[0]:
@@ -595,7 +595,8 @@ def validate_traces_generic(specdir, module, cfg, traces, stats, verdict, subjec
                     what = "result"
                 elif "obs" in exp[0]:
                     what = first_diff(ev.get("obs"), exp[0]["obs"]) or "trace-rejected"
-            sig = {"subject": subject, "op": ev["op"].get("op"), "variant": ev.get("variant") or None, "what": what}
+            opf = ev.get("op") if isinstance(ev.get("op"), dict) else {}
+            sig = {"subject": subject, "op": opf.get("op"), "variant": ev.get("variant") or None, "what": what}
             if sig_extra:
                 try:
                     sig.update(sig_extra(tr, ev, p) or {})
@@ -603,7 +604,7 @@ def validate_traces_generic(specdir, module, cfg, traces, stats, verdict, subjec
                     sig.update(sig_extra(tr, ev) or {})
             verdict.fail(sig, {"trace_meta": {k: v for k, v in tr.items() if k != "ev"}, "rejected_at_event": p["l"],
                                "event": ev, "spec_state_before": p.get("st"), "spec_expected": exp,
-                               "history": [dict(e["op"], _variant=e.get("variant")) if isinstance(e["op"], dict) else e["op"]
+                               "history": [dict(e["op"], _variant=e.get("variant")) if isinstance(e.get("op"), dict) else e.get("call", e.get("op"))
                                            for e in tr["ev"][:p["l"]]]})
     stats.traces_accepted += accepted
     return accepted
